@@ -296,12 +296,12 @@ def run_c10(tmp, tier, rnd):
 
 
 # ------------------------------------------------------------------------------------------- C11 / C12
-DIRS = ["", "src", "src/sub", "src/.gen", "lib", "lib/tests", ".hid", "tests", "build", "node_modules", "venv", "docs/api"]
+DIRS = ["", "src", "src/sub", "src/.gen", "lib", "lib/tests", ".hid", "tests", "build", "node_modules", "venv", "docs/api", "src/docs", "src/generated", "generated"]
 FILES = ["a.py", "b.js", "c.ts", "d.c", "e.txt", "Makefile", ".h.py", "F.java", "noext"]
 DEFAULT_EXCL = [".bzr", ".direnv", ".eggs", ".git", ".git-rewrite", ".hg", ".ipynb_checkpoints", ".mypy_cache", ".nox", ".pants.d",
                 ".pytest_cache", ".pytype", ".ruff_cache", ".svn", ".tox", ".venv", ".vscode", "__pypackages__", "_build", "buck-out",
                 "build", "dist", "node_modules", "venv", "test", "tests"]
-EXCL_SETS = [[], ["lib"], ["sub/"], ["*.js"], ["src/sub"], ["src/*"], ["docs", "*.ts"], ["/docs"], ["api/"]]
+EXCL_SETS = [[], ["lib"], ["sub/"], ["*.js"], ["src/sub"], ["src/*"], ["docs", "*.ts"], ["/docs"], ["api/"], ["/generated"]]
 
 
 def matches(pattern, rel):
@@ -397,6 +397,29 @@ def run_c11(tmp, tier, rnd):
                 wrong = sorted(k for k in set(got) & set(want) if got[k] != want[k])
                 fails.append(("file-set", f"root {mode}, excludes {ex} via {via}, dirs {chosen}: analysed but should not {extra}; not analysed "
                               f"but should {missing}; wrong language/checksum {wrong}", None))
+    # the real `scan` command function: --exclude together with a .codelimit.yml that has its own exclude list
+    from codelimit.common.Configuration import Configuration
+    import codelimit.__main__ as cli
+    for opt, yml in ((["lib"], ["*.js"]), (["*.ts"], []), ([], ["src/sub"]), (["docs"], ["lib", "*.c"])):
+        root = Path(tmp) / "w" / "cli"
+        make_tree(root, rnd, ["", "src", "src/sub", "lib", "docs/api"])
+        (root / ".codelimit.yml").write_text("exclude:\n" + "".join(f"  - \"{p}\"\n" for p in yml) if yml else "verbose: true\n")
+        Configuration.exclude = []
+        Configuration.verbose = True
+        n += 1
+        try:
+            with quiet():
+                cli.scan(path=root, exclude=list(opt), verbose=True)
+            doc = json.loads((root / ".codelimit_cache" / "codelimit.json").read_text())
+            got = set(k.replace(os.sep, "/") for k in doc["codebase"]["files"])
+            want = set(expected_files(str(root), opt + yml))
+            if got != want:
+                fails.append(("cli-excludes", f"scan --exclude {opt} with .codelimit.yml exclude {yml}: analysed but should not "
+                              f"{sorted(got - want)}; not analysed but should {sorted(want - got)}", None))
+        except BaseException as e:  # noqa
+            fails.append(("cli-exception", f"scan --exclude {opt} yml {yml}: {type(e).__name__}: {str(e)[:120]}", None))
+        finally:
+            Configuration.exclude = []
     return fails, n
 
 
@@ -430,8 +453,8 @@ def run_c12(tmp, tier, rnd):
     fails, n = [], 0
     for it in range(6 if tier == "quick" else 60):
         root = Path(tmp) / "w12" / "tree"
-        ex = rnd.choice(EXCL_SETS)
-        make_tree(root, rnd)
+        ex = rnd.choice(EXCL_SETS) if it % 2 else rnd.choice([["/generated"], ["/docs"], ["src/sub"]])
+        make_tree(root, rnd, None if it % 2 else ["", "src", "src/generated", "generated", "src/docs", "docs/api", "src/sub"])
         # a non-UTF-8 (Latin-1) source with a long function, and a malformed one
         (root / "latin.py").write_bytes(("# caf\xe9\n" + body("py", "latin", 40)).encode("latin-1"))
         (root / "broken.js").write_text("function f( {\n" + "x;\n" * 40)
@@ -458,6 +481,19 @@ def run_c12(tmp, tier, rnd):
                 want_code = 1 if any(m[5] > 60 for v in want.values() for m in v) else 0
                 if code != want_code:
                     fails.append(("exit-status", f"check {way}: exit {code}, expected {want_code}", None))
+            # 1b. through every sub-directory (relative)
+            for sub in sorted({os.path.dirname(k) for k in all_files if os.path.dirname(k) and not any(p.startswith(".") for p in k.split("/"))}):
+                n += 1
+                try:
+                    code, listed = run_check([sub])
+                except Exception as e:  # noqa
+                    fails.append(("exception", f"check dir {sub}: {type(e).__name__}: {str(e)[:100]}", None))
+                    continue
+                got = {os.path.relpath(f, ".").replace(os.sep, "/"): sorted(ms, key=lambda m: -m[5]) for f, ms in listed}
+                want = {k: sorted(v, key=lambda m: -m[5]) for k, v in scanned.items() if k.startswith(sub + "/")}
+                if set(got) != set(want) or any(got[k] != want[k] for k in got):
+                    fails.append(("subdir-differs", f"check {sub}/ vs scan (excludes {ex}): only check {sorted(set(got) - set(want))}; only scan "
+                                  f"{sorted(set(want) - set(got))}", None))
             # 2. single files by relative path and through their parent directory
             for rel in all_files:
                 if rel.startswith(".codelimit") or rel == ".gitignore":
@@ -569,6 +605,44 @@ def run_c06(tmp, tier, rnd):
     n += 1
     if d1 != d2:
         fails.append(("two-scans-differ", "two from-scratch scans of the same tree differ beyond uuid/timestamp/order", None))
+    # identical bytes under two languages: each file's result must be what it is when analysed alone
+    dup = Path(tmp) / "w6" / "dup"
+    dup.mkdir(parents=True)
+    text = body("py", "same", 35)
+    for nm in ("a_same.py", "b_same.js", "c_same.c"):
+        (dup / nm).write_text(text)
+    (dup / "z_other.js").write_text(body("js", "other", 35))
+    (dup / "y_same.py").write_text(body("js", "other", 35))
+    alone = {}
+    for nm in sorted(os.listdir(dup)):
+        one = Path(tmp) / "w6" / "one"
+        if one.exists():
+            shutil.rmtree(one)
+        one.mkdir()
+        shutil.copy(dup / nm, one / nm)
+        p = subprocess.run([sys.executable, os.path.abspath(__file__), "--scan-files", str(one)], capture_output=True, text=True, timeout=300)
+        alone.update(json.loads(p.stdout.strip().splitlines()[-1]))
+    together = norm(scan(dup))["codebase"]["files"]
+    n += 1
+    tg = {k: [[m["unit_name"], m["value"]] for m in v["measurements"]] for k, v in together.items()}
+    if tg != alone:
+        fails.append(("depends-on-other-files", f"files with identical bytes in different languages: together {tg} vs each alone {alone}", None))
+    # exclusion lists with negation: the result must not depend on the hash seed
+    neg = Path(tmp) / "w6" / "neg"
+    make_tree(neg, rnd, ["", "generated", "src"])
+    (neg / "generated" / "handwritten.py").write_text(body("py", "hand", 35))
+    (neg / ".gitignore").write_text("generated/*\n!generated/handwritten.py\n*.ts\n!src/c.ts\n")
+    seen_sets = {}
+    for hs in ("0", "1", "2", "3", "4", "5", "6", "7"):
+        env = dict(os.environ, PYTHONHASHSEED=hs)
+        p = subprocess.run([sys.executable, os.path.abspath(__file__), "--scan-files", str(neg)], capture_output=True, text=True, env=env, timeout=300)
+        n += 1
+        try:
+            seen_sets[hs] = sorted(json.loads(p.stdout.strip().splitlines()[-1]))
+        except Exception:
+            fails.append(("scan-run-failed", p.stderr[-300:], None))
+    if len({tuple(v) for v in seen_sets.values()}) > 1:
+        fails.append(("file-set-depends-on-hash-seed", f"with negated .gitignore patterns: {seen_sets}", None))
     # scanning another tree first (in the same process) must not influence the result
     other = Path(tmp) / "w6" / "other"
     make_tree(other, rnd, ["", "x"])
@@ -586,6 +660,12 @@ def run_c06(tmp, tier, rnd):
 def main():
     if sys.argv[1] == "--digest":
         print(json.dumps(corpus_digest(int(sys.argv[2]))))
+        return
+    if sys.argv[1] == "--scan-files":
+        from codelimit.common.Scanner import scan_path
+        set_excludes([])
+        cb = scan_path(Path(sys.argv[2]))
+        print(json.dumps({k.replace(os.sep, "/"): [(m.unit_name, m.value) for m in v.measurements()] for k, v in cb.files.items()}))
         return
     if sys.argv[1] == "--replay":
         rp = json.load(open(sys.argv[2]))
